@@ -1,5 +1,6 @@
 import SlicecVerif.Drv.C10
 import SlicecVerif.Drv.C11
+import SlicecVerif.Drv.C12
 
 open Slicec Slicec.Drv
 
@@ -14,6 +15,7 @@ def main (args : List String) : IO UInt32 := do
     match prop with
     | "C10" => genC10 t s o
     | "C11" => genC11 t s o
+    | "C12" => genC12 t s o
     | _ => IO.eprintln s!"unknown property {prop}"; return 2
     o.flush
     return 0
